@@ -166,4 +166,15 @@ pub fn run(ctx: &mut Ctx) {
         ctx.eval("value", m.fp(), m.size() > 1);
         check(ctx, &m, &mut rng, "value", i);
     }
+    // wide values: more than 128 siblings at one level
+    let n = ctx.n(60, 1_000);
+    for i in 0..n {
+        if !ctx.begin("wide", i) {
+            continue;
+        }
+        let mut rng = ctx.case_rng("wide", i);
+        let m = crate::gen::gen_wide(&mut rng);
+        ctx.eval("wide", m.fp(), true);
+        check(ctx, &m, &mut rng, "wide", i);
+    }
 }
